@@ -35,7 +35,10 @@ func (d *defineBuiltinMethod) setupMethodArgs(
 		case true:
 			argIdentifiers = append(argIdentifiers, argType.GetKey())
 
-			base.SetValueT(
+			// the keyword parameter of this class's method: a parent that
+			// was loaded first and declares the same keyword on its own
+			// method of that name must not be overwritten instead
+			base.SetOwnValueT(
 				d.frame,
 				d.targetClass,
 				method,
